@@ -334,7 +334,9 @@ def _parse_file_inplace(
 
         try:
             saxparser.parse(source)
-        except xml.sax.SAXException as e:
+        except (xml.sax.SAXException, UnicodeEncodeError) as e:
+            # (UnicodeEncodeError: text input with lone surrogates, which
+            # the XML parser cannot encode -- not an XML document either)
             result["bozo"] = 1
             result["bozo_exception"] = feed_parser.exc or e
             use_strict_parser = False
